@@ -13,8 +13,6 @@ dropped, the observed kind of every slot (singleton / list) is the kind the expo
 never starts inside this prefix. A file type that drops a message kind or moves the prefix breaks this. -/
 theorem C14_tables_ok : ∀ T ∈ fileTypes, TableOK T := by decide
 
-def hasFileId (msgs : List Msg) : Bool := msgs.any (fun m => m.num == mesgNumFileId)
-
 /-- **What a file keeps.** For every file type and every message list, the stored messages are exactly the input
 (each message normalised by its typed struct), minus the earlier occurrences of single-valued kinds
 (file_id, activity, user_profile, …: the last one added wins) — nothing else lost, nothing duplicated, arrival
@@ -49,60 +47,12 @@ theorem C14_conservation_no_file_id {T : FileType} (hT : T ∈ fileTypes) (msgs 
     simpa [hasFileId, Function.comp_def, normT_num] using hfid
   simpa [hany] using h1
 
-/-- shape of the output: exactly one file_id, the developer_data_id messages, the field_description messages, the rest -/
-def OutputShape (T : FileType) (msgs : List Msg) (fid : Msg) (rest : List Msg) : Prop :=
-  toFIT T (build T msgs) =
-    fid :: ((build T msgs).filter (fun m => m.num == mesgNumDeveloperDataId) ++
-      ((build T msgs).filter (fun m => m.num == mesgNumFieldDescription) ++ rest))
-
-/-- the part of the emission that follows the prefix (typed slots in table order, each in arrival order, then the
-unrelated messages in arrival order) -/
-def restEmission (T : FileType) (msgs : List Msg) : List Msg := (restGroups T (build T msgs)).flatten
-
-theorem output_shape {T : FileType} (hT : T ∈ fileTypes) (msgs : List Msg) :
-    ∃ fid, fid.num = mesgNumFileId ∧ OutputShape T msgs fid
-      (((restGroups T (build T msgs)).take (T.sortFrom - 3)).flatten ++
-        sortStable ((restGroups T (build T msgs)).drop (T.sortFrom - 3)).flatten) := by
-  have hok := C14_tables_ok T hT
-  obtain ⟨s0, s1, s2, rest, hsl, hsplit⟩ := toFIT_split hok (build T msgs)
-  obtain ⟨s0', s1', s2', rest', hsl', h0n, h0k, h1n, h1k, h2n, h2k, _⟩ := tableOK_slots hok
-  rw [hsl] at hsl'
-  obtain ⟨rfl, rfl, rfl, rfl⟩ : s0 = s0' ∧ s1 = s1' ∧ s2 = s2' ∧ rest = rest' := by
-    simp only [List.cons.injEq] at hsl'; exact ⟨hsl'.1, hsl'.2.1, hsl'.2.2.1, hsl'.2.2.2⟩
-  have e1 : slotMsgs T (build T msgs) s1 = (build T msgs).filter (fun m => m.num == mesgNumDeveloperDataId) := by
-    rw [slotMsgs_of_not_value _ _ _ (by rw [h1k]; decide), h1n]
-  have e2 : slotMsgs T (build T msgs) s2 = (build T msgs).filter (fun m => m.num == mesgNumFieldDescription) := by
-    rw [slotMsgs_of_not_value _ _ _ (by rw [h2k]; decide), h2n]
-  -- the file_id group has exactly one element
-  have e0 : ∃ fid, fid.num = mesgNumFileId ∧ slotMsgs T (build T msgs) s0 = [fid] := by
-    by_cases hany : (build T msgs).any (fun m => m.num == s0.num) = true
-    · rw [slotMsgs_of_any _ _ _ hany]
-      have hle := keepLast_single_le_one T mesgNumFileId (isSingle_fileId hok) (msgs.map (normT T))
-      rw [← build_eq_keepLast hok, ← h0n] at hle
-      obtain ⟨a, ha, hp⟩ := List.any_eq_true.mp hany
-      have hmem : a ∈ (build T msgs).filter (fun m => m.num == s0.num) := List.mem_filter.mpr ⟨ha, hp⟩
-      match hl : (build T msgs).filter (fun m => m.num == s0.num) with
-      | [] => rw [hl] at hmem; cases hmem
-      | [x] =>
-        refine ⟨x, ?_, hl⟩
-        have : x ∈ (build T msgs).filter (fun m => m.num == s0.num) := by rw [hl]; simp
-        rw [← h0n]; simpa using (List.mem_filter.mp this).2
-      | _ :: _ :: _ => rw [hl] at hle; simp at hle
-    · have hany' : (build T msgs).any (fun m => m.num == s0.num) = false := by simpa using hany
-      obtain ⟨hd, _⟩ := slotMsgs_default T _ s0 h0k hany'
-      exact ⟨defaultMsg T s0.num, h0n, hd⟩
-  obtain ⟨fid, hfn, hf⟩ := e0
-  refine ⟨fid, hfn, ?_⟩
-  unfold OutputShape
-  rw [hsplit, hf, e1, e2]
-  rfl
-
 /-- **Prefix order.** The output starts with exactly one file_id message, then all developer_data_id messages, then
 all field_description messages (each in arrival order); no message of these three kinds occurs later. -/
 theorem C14_prefix_order {T : FileType} (hT : T ∈ fileTypes) (msgs : List Msg) :
     ∃ fid rest, fid.num = mesgNumFileId ∧ OutputShape T msgs fid rest ∧ ∀ m ∈ rest, isPrefixNum m.num = false := by
   have hok := C14_tables_ok T hT
-  obtain ⟨fid, hfn, hshape⟩ := output_shape hT msgs
+  obtain ⟨fid, hfn, hshape⟩ := output_shape hok msgs
   refine ⟨fid, _, hfn, hshape, ?_⟩
   intro m hm
   apply mem_restGroups hok (build T msgs) m
@@ -150,7 +100,7 @@ theorem C14_sorted_stable_partial {T : FileType} (hT : T ∈ fileTypes) (h3 : T.
     ∃ fid, OutputShape T msgs fid (sortStable (restEmission T msgs)) ∧
       Sorted (sortStable (restEmission T msgs)) ∧
       (∀ k, withKey k (sortStable (restEmission T msgs)) = withKey k (restEmission T msgs)) := by
-  obtain ⟨fid, _, hshape⟩ := output_shape hT msgs
+  obtain ⟨fid, _, hshape⟩ := output_shape (C14_tables_ok T hT) msgs
   rw [h3] at hshape
   simp only [Nat.sub_self, List.take_zero, List.flatten_nil, List.nil_append, List.drop_zero] at hshape
   exact ⟨fid, hshape, sortStable_sorted _, fun k => sortStable_withKey k _⟩
@@ -161,10 +111,14 @@ theorem C14_sorted_suffix {T : FileType} (hT : T ∈ fileTypes) (msgs : List Msg
     ∃ fid, OutputShape T msgs fid
       (((restGroups T (build T msgs)).take (T.sortFrom - 3)).flatten ++
         sortStable ((restGroups T (build T msgs)).drop (T.sortFrom - 3)).flatten) := by
-  obtain ⟨fid, _, h⟩ := output_shape hT msgs
+  obtain ⟨fid, _, h⟩ := output_shape (C14_tables_ok T hT) msgs
   exact ⟨fid, h⟩
 
-/-- non-vacuity: the activity file type is in the regenerated table and sorts from the end of the prefix -/
+/-- non-vacuity: a message list with a file_id (hypothesis of `C14_conservation`), one without; the activity file type is
+in the regenerated table and sorts from the end of the prefix -/
+example : hasFileId [{ (default : Msg) with num := 0, tag := 1 }, { (default : Msg) with num := 20, tag := 2 }] = true ∧
+    hasFileId [{ (default : Msg) with num := 20, tag := 2 }] = false := by decide
+
 example : ft4 ∈ fileTypes ∧ ft4.sortFrom = 3 := by decide
 
 /-! ### Known finding KF-C14-2: file types that do not sort everything after the prefix
